@@ -143,6 +143,11 @@ func (t jtx) render(order int, dupKey string) string {
 			if dupKey == "transfer.extra" && i == 0 {
 				s = fmt.Sprintf(`{"address":"%s","amount":%s,"x":0}`, o[0], o[1])
 			}
+			if dupKey == "transfer.amount-replaced" && i == 0 {
+				// no "amount" member; an unknown one of about the length an amount would take stands in its place
+				alt := []string{`"amnout":5`, `"amt":1000`, `"memo":"x"`, `"note":"a"`, `"amount ":1`, `"Amount":77`, `"a":123456`, `"amoun":12`, `"x":0`}
+				s = fmt.Sprintf(`{"address":"%s",%s}`, o[0], alt[(len(o[1])+len(o[0]))%len(alt)])
+			}
 			os = append(os, s)
 		}
 		body += `,"transfers":[` + strings.Join(os, ",") + `]`
@@ -173,7 +178,7 @@ func (t jtx) render(order int, dupKey string) string {
 	return "{" + body + "}"
 }
 
-var dupKinds = []string{"", "", "", "", "input.missing-type", "input.missing-type-dup", "input.amount", "input.address", "input.type", "input.extra", "transfer.amount", "transfer.extra", "transfer.wrap", "transfer.wrap-int64", "tx.input", "tx.conversion", "tx.transfers", "tx.transfers-null", "tx.conversion-empty", "tx.extra", "tx.both",
+var dupKinds = []string{"", "", "", "", "input.missing-type", "input.missing-type-dup", "input.amount", "input.address", "input.type", "input.extra", "transfer.amount", "transfer.extra", "transfer.amount-replaced", "transfer.wrap", "transfer.wrap-int64", "tx.input", "tx.conversion", "tx.transfers", "tx.transfers-null", "tx.conversion-empty", "tx.extra", "tx.both",
 	"batch.version", "batch.transactions", "batch.extra", "batch.metadata", "case.version", "case.transactions", "case.input", "case.amount", "unicode.key", "neither", "two-inputs", "unknown-ticker", "unknown-conv", "escaped-ticker", "ws"}
 
 func (g *c20gen) batch() (string, string) {
